@@ -204,6 +204,69 @@ def history_cases(handled, aux_cmds):
     return cases
 
 
+# ---- overlapping commands (harness/cmd/c11/overlap.go, Model/CmdContext.v) --------------------------------------
+OVL_KINDS = ("oneway", "timeout", "domcreate")
+
+
+def overlap_script(t):
+    """model script of a command: 0 = its handler (or the response path) looks at the context, 1 = Execute returns"""
+    if t["kind"] == "oneway":
+        return [1, 0] + [0] * t["reads"]
+    if t["kind"] == "timeout":
+        return [0, 1] + [0] * t["reads"] + [0]          # ... + sendResponse(ctx.ConnectionID)
+    return [1, 0, 0]                                    # HTTPDomainCreate: CreateMapping(ctx.ClientID), sendResponse(ctx.ConnectionID)
+
+
+def overlap_schedule(case):
+    """harness operations -> model schedule (thread indices, one per atomic step)"""
+    sched, released = [], [0] * len(case["threads"])
+    for op, i in case["ops"]:
+        t = case["threads"][i]
+        if op == 0:
+            sched += [i] * (2 if t["kind"] == "domcreate" else 3)
+        elif t["kind"] == "domcreate":
+            sched += [i, i]
+        else:
+            released[i] += 1
+            sched += [i] * (2 if t["kind"] == "timeout" and released[i] == t["reads"] else 1)
+    return sched
+
+
+def overlap_case(threads, order, procs=1, tag="overlap"):
+    return {"mode": "overlap", "nclients": 4, "procs": procs, "threads": threads, "ops": order, "tag": tag}
+
+
+def overlap_cases(rng, n):
+    cases = []
+    # the witness of the seeded change: a one-way / timed-out / storage-parked command of client 1 is still in its handler
+    # while client 2's command is dispatched (and completes)
+    for ka in OVL_KINDS:
+        for kb in OVL_KINDS:
+            ths = [{"conn": 1, "kind": ka, "reads": 2}, {"conn": 2, "kind": kb, "reads": 1}]
+            ops = [[0, 0], [0, 1], [1, 1], [1, 0], [1, 0]]
+            if ka == "domcreate":
+                ops = [[0, 0], [0, 1], [1, 1], [1, 0]]
+            cases.append(overlap_case(ths, ops, tag="overlap:pair"))
+    for _ in range(n):
+        k = rng.choice([2, 3, 3, 4, 5])
+        ths = [{"conn": rng.randrange(1, 5), "kind": rng.choice(OVL_KINDS), "reads": rng.choice([1, 1, 2, 3])} for _ in range(k)]
+        if len(set(t["conn"] for t in ths)) < 2:
+            ths[0]["conn"] = ths[1]["conn"] % 4 + 1
+        # a random interleaving: D i first, then the releases of i, everything of different commands shuffled
+        pending = [[[0, i]] + [[1, i]] * (1 if t["kind"] == "domcreate" else t["reads"]) for i, t in enumerate(ths)]
+        ops = []
+        while any(pending):
+            i = rng.choice([j for j, p in enumerate(pending) if p])
+            ops.append(pending[i].pop(0))
+        cases.append(overlap_case(ths, ops, procs=rng.choice([1, 1, 1, 0]), tag="overlap:random"))
+    return cases
+
+
+def overlap_value(case, out):
+    ths = [[t["conn"], t["conn"], i, overlap_script(t)] for i, t in enumerate(case["threads"])]
+    return [9, ths, overlap_schedule(case), out["obs"]]
+
+
 def answer_cases():
     """a forwarded DNS request answered on another client's / an unknown connection (recorded finding)"""
     out = []
@@ -342,6 +405,8 @@ def run(ctx, only_cases=None):
         cases += history_cases(handled, [NOTIFY])
         cases += answer_cases()
         cases += random_cases(ctx.rng, 2500 if thorough else 250, [h for h in HANDLED])
+    ovl = [c for c in cases if c.get("mode") == "overlap"] + (overlap_cases(ctx.rng, 120 if thorough else 24) if only_cases is None else [])
+    cases = [c for c in cases if c.get("mode") != "overlap"]
     twins = [honest_twin(c) for c in cases if twin_wanted(c)]
     malformed = malformed_cases(ctx.rng, handled, 240 if thorough else 72) if only_cases is None else []
     outs = vlib.run_harness(binary, cases + twins + malformed, timeout=1500)
@@ -350,6 +415,10 @@ def run(ctx, only_cases=None):
             raise vlib.Broken("C11 harness world setup failed", json.dumps({"case": c, "err": o["setup_err"]})[:3000])
     couts = outs[:len(cases)]
     touts = outs[len(cases):len(cases) + len(twins)]
+    oouts = vlib.run_harness(binary, ovl, timeout=900) if ovl else []
+    for c, o in zip(ovl, oouts):
+        if o.get("setup_err"):
+            raise vlib.Broken("C11 harness overlap setup failed", json.dumps({"case": c, "err": o["setup_err"]})[:3000])
 
     # (iii) the property predicate evaluated by the harness on the real code's outputs
     nfail, reported = 0, set()
@@ -367,6 +436,14 @@ def run(ctx, only_cases=None):
             small = c if key in ctx.known else shrink_steps(binary, c, i, key)
             ctx.violation(key, "real command stack: %s (step: %s)" % (so["prop_msg"], json.dumps(c["steps"][i])),
                           {"case": small, "step": len(small["steps"]) - 1 if small is not c else i, "observed": so})
+    # overlapping commands: a still-running handler keeps seeing its own command's context
+    for c, o in zip(ovl, oouts):
+        if not o["prop_ok"]:
+            nfail += 1
+            if o["prop_key"] not in reported:
+                reported.add(o["prop_key"])
+                ctx.violation(o["prop_key"], "real executor: %s (operations D/R: %s)" % (o["prop_msg"], json.dumps(c["ops"])),
+                              {"case": c, "observed": o["obs"], "own": o["own"]})
     # (a) packet identity fields must not matter: forged vs honest twin, same observables
     ti = 0
     nclaim = 0
@@ -387,13 +464,13 @@ def run(ctx, only_cases=None):
     stale = [k for f, (_, keys) in DEFECTS.items() if flags[f] for k in keys if k in ctx.known]
 
     # (ii) model vs implementation
-    mcases = [(c, o) for c, o in zip(cases, couts)]
-    terms = [case_value(c, o, flags) for c, o in mcases]
+    mcases = [(c, o) for c, o in zip(cases, couts)] + [(c, o) for c, o in zip(ovl, oouts)]
+    terms = [case_value(c, o, flags) for c, o in zip(cases, couts)] + [overlap_value(c, o) for c, o in zip(ovl, oouts)]
     mism = []
     try:
         res, pred = vlib.model_eval(PROP, terms, predict=True)
         mism = [i for i, ok in enumerate(res) if not ok]
-        cand = [i for i in range(len(terms)) if len(mcases[i][0]["steps"]) <= 10]
+        cand = [i for i in range(len(terms)) if len(mcases[i][0].get("steps", [])) <= 10]
         small = cand[:: max(1, len(cand) // 30)][:30]
         vm_bad = sorted(small[k] for k in vlib.vm_crosscheck(PROP, [terms[i] for i in small]))
         ext_bad = sorted(i for i in small if not res[i])
@@ -408,11 +485,11 @@ def run(ctx, only_cases=None):
         if o["prop_ok"] and not ctx.violations:
             ctx.violation("model-mismatch", "Corr/C11.check: the Commands model (table variant %s) and the real command stack disagree on a case on "
                           "which the Go-side predicate holds; the theorems of Properties/C11.v no longer speak about this code" % json.dumps(flags),
-                          {"case": c, "observed": [project(s) for s in o["steps"]], "model": pred[i] if pred else None}, found_input=False)
+                          {"case": c, "observed": [project(s) for s in o["steps"]] if "steps" in o else o.get("obs"), "model": pred[i] if pred else None}, found_input=False)
         elif not o["prop_ok"] and not any(k for k in reported if k not in ctx.known):
             # the predicate failed only with known keys, yet the model (which has the matching pinned rows) disagrees
             ctx.violation("model-mismatch", "Corr/C11.check: model (table variant %s) and real command stack disagree" % json.dumps(flags),
-                          {"case": c, "observed": [project(s) for s in o["steps"]], "model": pred[i] if pred else None}, found_input=False)
+                          {"case": c, "observed": [project(s) for s in o["steps"]] if "steps" in o else o.get("obs"), "model": pred[i] if pred else None}, found_input=False)
 
     # coverage
     distinct, nontrivial = set(), set()
@@ -441,6 +518,13 @@ def run(ctx, only_cases=None):
             dist["steps_with_delivery"] += 1 if so["deliveries"] else 0
             dist["steps_changing_storage"] += 1 if changed else 0
             prev = so
+    dist["overlap_cases"] = len(ovl)
+    dist["overlap_commands_by_kind"] = {k: sum(1 for c in ovl for t in c["threads"] if t["kind"] == k) for k in OVL_KINDS}
+    dist["overlap_observations"] = sum(len(x) for o in oouts for x in o["obs"])
+    dist["overlap_observations_after_another_dispatch"] = sum(
+        1 for c, o in zip(ovl, oouts) for i, t in enumerate(c["threads"])
+        for _ in range(sum(1 for k, op in enumerate(c["ops"]) if op == [1, i] and any(p[0] == 0 and p[1] != i for p in c["ops"][c["ops"].index([0, i]):k]))))
+    nsteps += dist["overlap_observations"]
     ctx.coverage.update({
         "evaluations": nsteps + dist["malformed_steps_go_only"], "distinct_nontrivial": len(nontrivial),
         "rule": "one evaluation = one command packet handed to the real SessionManager.HandlePacket of the fully wired server fixture; "
@@ -450,7 +534,8 @@ def run(ctx, only_cases=None):
                 "classes x {honest, forged} identity fields; random: seeded worlds x 4-15 step histories; every forged case is re-run "
                 "with honest fields and the observables compared.",
         "samples": [{"case": {k: v for k, v in cases[i].items() if k != "steps"}, "first_steps": cases[i]["steps"][:2],
-                     "observed": [project(s) for s in couts[i]["steps"][:2]]} for i in (0, len(cases) // 2, len(cases) - 1) if i < len(cases)],
+                     "observed": [project(s) for s in couts[i]["steps"][:2]]} for i in (0, len(cases) // 2, len(cases) - 1) if 0 <= i < len(cases)]
+                   + [{"case": c, "observed": o["obs"]} for c, o in list(zip(ovl, oouts))[:2]],
         "dispatch_table_handled_bytes": handled, "tree_variant": {k: ("repaired" if v else "as found") for k, v in flags.items()},
         "model_vs_impl_cases": len(terms), "model_vs_impl_steps": sum(len(t[2]) for t in terms), "model_vs_impl_mismatches": len(mism),
         "impl_property_failures": nfail, "input_distribution": dist, "generated_file_changed": gen_changed,
@@ -462,7 +547,8 @@ def run(ctx, only_cases=None):
         "a connection code is a bearer secret by design (TunnelConnectionCode.CanBeActivatedBy): any authenticated client may activate it; the new mapping's listen side is the activating connection's identity",
         "HTTP domain base-domain list / subdomain check / subdomain generation are treated as public reads (no client-owned state)",
         "answers to forwarded DNS requests / HTTP proxy responses are matched by CommandId only (recorded finding cmd12x-resp:any-connection-answers); the model treats response packets as sinks",
-        "one command at a time: concurrency between commands is not modelled",
+        "overlapping commands: the model covers the CommandContext handed to a handler (Model/CmdContext.v, all interleavings of dispatch / look / Execute-return); "
+        "storage races between concurrently running handlers are other properties' business (C14, C19)",
     ]
     if stale:
         ctx.coverage["stale_known_findings"] = stale
